@@ -43,9 +43,13 @@ def exec_call(L, c, fresh, off, fill, seed):
         b = Buf(n, off=off, fill=fl)
         made.append(b)
         return b
+    fp0 = L.fpenv()
     try:
         return _exec_call(L, c, fresh, f, m, g, dv, P)
     finally:
+        why = L.fpenv_check(fp0)
+        if why:
+            raise OutOfExtent("%s m=%d: %s" % (f, m, why))
         if not all(b.canaries_ok() for b in made):
             raise OutOfExtent("%s m=%d: write outside a buffer of the declared size" % (f, m))
 
